@@ -540,7 +540,93 @@ class CG:
             sites.append(RaiseSite(u, n, "<reraise>", "raise", "bare raise"))
             return
         name = self.exc_name(ty, n.exc)
+        if name is None:
+            # the class is a loop variable running over a table of classes (a module constant, possibly
+            # handed in as an argument): one site per class of that column
+            names = self._table_classes(u, ty, n.exc)
+            if names:
+                for nm in names:
+                    sites.append(RaiseSite(u, n, nm, "raise", src_of(n.exc)))
+                return
         sites.append(RaiseSite(u, n, name or "<unknown>", "raise", src_of(n.exc)))
+
+    def _table_classes(self, u: Unit, ty: Typer, e: ast.AST) -> List[str]:
+        f = e.func if isinstance(e, ast.Call) else e
+        while isinstance(f, ast.Attribute):
+            f = f.value
+        if not isinstance(f, ast.Name):
+            return []
+        var = f.id
+        fn = u.fn.node
+        params0 = [a.arg for a in fn.args.args]
+        if var in params0 and not any(isinstance(x, ast.Name) and x.id == var and isinstance(x.ctx, ast.Store) for x in ast.walk(fn)):
+            # the class is handed in by the callers
+            pi = params0.index(var)
+            off = 1 if params0 and params0[0] in ("self", "cls") else 0
+            got: List[str] = []
+            n_calls = 0
+            for m_ in self.model.mods.values():
+                for c in ast.walk(m_.tree):
+                    if isinstance(c, ast.Call) and ((isinstance(c.func, ast.Attribute) and c.func.attr == fn.name) or (isinstance(c.func, ast.Name) and c.func.id == fn.name)):
+                        ai = pi - (off if isinstance(c.func, ast.Attribute) else 0)
+                        arg = c.args[ai] if 0 <= ai < len(c.args) else next((k.value for k in c.keywords if k.arg == var), None)
+                        if not isinstance(arg, ast.Name):
+                            return []
+                        r = self.model.resolve_name(m_, arg.id)
+                        if not isinstance(r, ClassInfo):
+                            return []
+                        n_calls += 1
+                        if r.name not in got:
+                            got.append(r.name)
+            return got if n_calls else []
+        for lp in ast.walk(fn):
+            if not isinstance(lp, ast.For):
+                continue
+            col: Optional[int] = None
+            if isinstance(lp.target, ast.Name) and lp.target.id == var:
+                col = -1
+            elif isinstance(lp.target, (ast.Tuple, ast.List)):
+                for i, x in enumerate(lp.target.elts):
+                    if isinstance(x, ast.Name) and x.id == var:
+                        col = i
+            if col is None:
+                continue
+            tables: List[ast.AST] = []
+            it = lp.iter
+            mod = self.model.mods[u.fn.rel]
+            if isinstance(it, ast.Name):
+                params = [a.arg for a in fn.args.args]
+                if it.id in params and ty.local(it.id) is not None and it.id not in mod.assigns or it.id in params:
+                    pi = params.index(it.id)
+                    off = 1 if params and params[0] in ("self", "cls") else 0
+                    for m_ in self.model.mods.values():
+                        for c in ast.walk(m_.tree):
+                            if isinstance(c, ast.Call) and ((isinstance(c.func, ast.Attribute) and c.func.attr == fn.name) or (isinstance(c.func, ast.Name) and c.func.id == fn.name)):
+                                ai = pi - (off if isinstance(c.func, ast.Attribute) else 0)
+                                arg = c.args[ai] if 0 <= ai < len(c.args) else next((k.value for k in c.keywords if k.arg == it.id), None)
+                                if isinstance(arg, ast.Name) and arg.id in m_.assigns:
+                                    tables.append(m_.assigns[arg.id])
+                                else:
+                                    return []
+                elif it.id in mod.assigns:
+                    tables.append(mod.assigns[it.id])
+            elif isinstance(it, (ast.Tuple, ast.List)):
+                tables.append(it)
+            out: List[str] = []
+            for t in tables:
+                if not isinstance(t, (ast.Tuple, ast.List)):
+                    return []
+                for row in t.elts:
+                    cell = row if col == -1 else (row.elts[col] if isinstance(row, (ast.Tuple, ast.List)) and col < len(row.elts) else None)
+                    if not isinstance(cell, ast.Name):
+                        return []
+                    r = self.model.resolve_name(mod, cell.id)
+                    if not isinstance(r, ClassInfo):
+                        return []
+                    if r.name not in out:
+                        out.append(r.name)
+            return out
+        return []
 
     def _scan_div(self, u: Unit, ty: Typer, n: ast.BinOp, sites: List[RaiseSite]) -> None:
         if isinstance(n.op, ast.Mod):
